@@ -355,6 +355,30 @@ func execute(c *core.Ctx, r *request, nruns int) {
 	c.Emit("C18.run", r.kind, r.tpl, thr, fmt.Sprint(nlines), core.StrList(r.args), encFiles(r.files), exit0, core.StrLists(runs), core.Escape(diff))
 }
 
+// the seed is used: the random templates give another output for another seed (non-vacuity of
+// "deterministic for a given seed": a command that ignored --seed and used a constant would also be deterministic)
+func seedUse(c *core.Ctx, in *inputs) {
+	random := map[string]bool{"shuffletips": true, "gen-yule": true, "gen-uniform": true, "prune-random": true, "sample": true,
+		"brlen-setrand": true, "support-setrand": true, "rotate-rand": true, "acr-random": true, "asr-protein-random": true}
+	var res []string
+	for _, r := range cliTemplates(c, in) {
+		if !random[r.tpl] {
+			continue
+		}
+		a := runCLIOnce(c, r, 0)
+		r2 := *r
+		r2.args = append([]string{}, r.args...)
+		r2.args[len(r2.args)-1] = fmt.Sprint(in.seed + 12345) // the last argument is the seed
+		b := runCLIOnce(c, &r2, 1)
+		same := "differs"
+		if a.blob == b.blob {
+			same = "same"
+		}
+		res = append(res, r.tpl+"="+same)
+	}
+	c.Emit("C18.seeduse", core.StrList(res))
+}
+
 // the extractor on a synthetic package containing one of everything it must find
 func selfTest(c *core.Ctx) {
 	got, err := SelfTest(c.Tmp)
@@ -387,6 +411,10 @@ func Run(c *core.Ctx) {
 		inprocChild(strings.TrimPrefix(c.Arg, "inproc:"), c.Tmp)
 		return
 	}
+	if strings.HasPrefix(c.Arg, "shrink:") {
+		shrinkFile(c, strings.TrimPrefix(c.Arg, "shrink:"))
+		return
+	}
 	if c.Arg != "" && c.Arg != "race" {
 		replay(c, core.ReadRequests(c.Arg))
 		return
@@ -407,7 +435,7 @@ func Run(c *core.Ctx) {
 	// the table tie is one case of every run: the driver compares the regenerated site list with the proved one
 	c.Emit("C18.table")
 	selfTest(c)
-	inputs := c.Scale(2, 4)
+	inputs := c.Scale(3, 5)
 	nruns := c.Scale(5, 20)
 	for rep := 0; rep < inputs; rep++ {
 		in := genInputs(c, rep)
@@ -420,5 +448,8 @@ func Run(c *core.Ctx) {
 			execute(c, r, nruns)
 		}
 		siteCases(c, in)
+		if c.Gotree != "" && rep == 0 {
+			seedUse(c, in)
+		}
 	}
 }
